@@ -274,6 +274,11 @@ class FdEngine:
                     aliases.discard(lhs["l"])
             t = f.term(b)
             if t["t"] == "call":
+                if strip_generics(callee_name(t)) in ("std::mem::forget", "std::mem::ManuallyDrop::new") and t["args"] and op_place(t["args"][0]) is not None \
+                        and ("w", t["args"][0]["pl"]["l"]) in aliases and status == "released":
+                    # the owning wrapper is defused: its Drop will not run, the raw value read out of it carries the obligation again
+                    aliases.discard(("w", t["args"][0]["pl"]["l"]))
+                    status = "owned"
                 sk = self.sink_kind(f, t, aliases, tracer)
                 if isinstance(sk, tuple) and sk[0] == "HOLD":
                     aliases.add(sk[1])
@@ -1236,6 +1241,46 @@ FORGET = ("std::mem::forget", "std::mem::ManuallyDrop::new", "std::boxed::Box::l
           "std::mem::ManuallyDrop::take", "tempfile::TempDir::disable_cleanup")
 
 
+def _is_defuse(F, f, b, t):
+    """`let fd = guard.0; mem::forget(guard); fd` -- the guard owns exactly the field that was read out before it is forgotten"""
+    if not t["args"] or op_local(t["args"][0]) is None:
+        return False
+    G = op_local(t["args"][0])
+    adt = f.local_adt(G)
+    if not adt:
+        return False
+    Fn_ = F.nodrop() if hasattr(F, "nodrop") else F
+    owned = set()
+    for dom in ("fd", "mem"):
+        with domain(dom):
+            od, _oc = owning_fields(Fn_)
+        owned |= {fld for (a, fld) in od if a == adt}
+    if not owned:
+        return False
+    # locals the guard value travelled through on its way to the forget
+    chain = {G}
+    work = [G]
+    while work:
+        l = work.pop()
+        for (db, si, node) in f.defs().get(l, []):
+            if si is not None and node["rv"]["r"] == "use" and not node["lhs"].get("p"):
+                src = op_place(node["rv"]["a"][0])
+                if src is not None and not src.get("p") and src["l"] not in chain:
+                    chain.add(src["l"])
+                    work.append(src["l"])
+    for rb in f.live_blocks():
+        if not f.dominates(rb, b):
+            continue
+        for st in f.stmts(rb):
+            if st["s"] == "assign" and st["rv"]["r"] == "use":
+                src = op_place(st["rv"]["a"][0])
+                if src is not None and src["l"] in chain:
+                    names = [e["n"] for e in src.get("p", []) if isinstance(e, dict) and "f" in e]
+                    if names and names[-1] in owned:
+                        return True
+    return False
+
+
 def rule_no_forget(ctx, cfg, F):
     R = ctx.rule("NO-FORGET", "no call in the library defeats RAII: mem::forget, ManuallyDrop::new, Box::leak/into_raw, Arc::into_raw, "
                  "TempDir::keep/into_path/disable_cleanup, IntoRawFd::into_raw_fd (expected count 0)")
@@ -1252,6 +1297,9 @@ def rule_no_forget(ctx, cfg, F):
             nm = strip_generics(callee_name(t))
             if nm in FORGET or strip_generics(t.get("callee") or "") in FORGET:
                 if t.get("x") and ("thread_local" in f.path or "LazyStatic" in f.path or "__static_ref" in f.path):
+                    continue
+                if nm in ("std::mem::forget", "std::mem::ManuallyDrop::new") and _is_defuse(F, f, b, t):
+                    R.ok("%s in %s defuses a guard whose resource was read out first (ownership passes to the raw value; FD-PATH / ALLOC-PAIR follow it)" % (nm.split("::")[-1], f.path), f.loc(b), cfg)
                     continue
                 n += 1
                 R.violate("%s:%s" % (f.path, nm), "%s called in %s: the value's destructor (close/unmap/delete) will not run" % (nm, f.path),
